@@ -187,7 +187,7 @@ def make_scenarios(tier, seed):
         plan = ([(m, "many") for m in REQUIRED_MODES] + [(m, "few") for m in REQUIRED_MODES] +
                 [("heading_context", "few"), ("quiet", "many"), ("heading", "none"), ("only_matching", "many"),
                  ("count_zero", "few"), ("vimgrep_after", "many")])
-        nrun, nsort = 14, 2
+        nrun, nsort = 22, 3
     else:
         plan = []
         modes = list(MODES)
